@@ -62,7 +62,7 @@ Definition ex11 : state :=
       [ OInit (1%N, false) true true 5%N 100 6%N; OInit (1%N, true) true true 5%N 1 6%N;
         OInit (2%N, false) true true 8%N 2 9%N; OAddClaimer (1%N, false) true (2%N, true) ].
 
-Example C11_ex_state_ok : addr_ok ex11 /\ length (st_prov ex11) = 3%nat.
+Example C11_ex_state_ok : addr_ok ex11 /\ length (st_prov ex11) = 2%nat.
 Proof. split; [apply run_addr_ok, genesis_addr_ok | reflexivity]. Qed.
 
 (* the lower-case spelling of account 1 edits: its upper-case twin and account 2 keep their records *)
